@@ -383,7 +383,7 @@ func (s *SecureChannel) Receive(ctx context.Context) *MessageBody {
 
 			case 'C':
 				s.chunks[reqID] = append(s.chunks[reqID], chunk)
-				if n := len(s.chunks[reqID]); uint32(n) > s.c.MaxChunkCount() {
+				if n, max := len(s.chunks[reqID]), s.c.MaxChunkCount(); max > 0 && uint32(n) > max {
 					delete(s.chunks, reqID)
 					s.chunksMu.Unlock()
 					msg.Err = errors.Errorf("too many chunks: %d > %d", n, s.c.MaxChunkCount())
@@ -396,7 +396,7 @@ func (s *SecureChannel) Receive(ctx context.Context) *MessageBody {
 				for _, cs := range s.chunks {
 					buffered += len(cs)
 				}
-				if uint32(buffered) > s.c.MaxChunkCount() {
+				if max := s.c.MaxChunkCount(); max > 0 && uint32(buffered) > max {
 					s.chunks = make(map[uint32][]*MessageChunk)
 					s.chunksMu.Unlock()
 					msg.Err = errors.Errorf("too many chunks of incomplete messages: %d > %d", buffered, s.c.MaxChunkCount())
@@ -418,7 +418,7 @@ func (s *SecureChannel) Receive(ctx context.Context) *MessageBody {
 				return msg
 			}
 
-			if uint32(len(b)) > s.c.MaxMessageSize() {
+			if max := s.c.MaxMessageSize(); max > 0 && uint32(len(b)) > max {
 				msg.Err = errors.Errorf("message too large: %d > %d", uint32(len(b)), s.c.MaxMessageSize())
 				return msg
 			}
@@ -1095,6 +1095,16 @@ func (s *SecureChannel) sendAsyncWithTimeout(
 		return nil, err
 	}
 
+	// refuse a message which is too large for the
+	// server before a handler is registered for it.
+	chunks, err := m.EncodeChunks(instance.maxBodySize)
+	if err != nil {
+		return nil, err
+	}
+	if !s.withinPeerLimits(chunks) {
+		return nil, ua.StatusBadRequestTooLarge
+	}
+
 	var resp chan *MessageBody
 
 	if respRequired {
@@ -1110,11 +1120,6 @@ func (s *SecureChannel) sendAsyncWithTimeout(
 
 		s.handlers[reqID] = resp
 		s.handlersMu.Unlock()
-	}
-
-	chunks, err := m.EncodeChunks(instance.maxBodySize)
-	if err != nil {
-		return nil, err
 	}
 
 	for i, chunk := range chunks {
@@ -1169,6 +1174,9 @@ func (s *SecureChannel) writeMessageChunks(ctx context.Context, instance *channe
 	if err != nil {
 		return 0, err
 	}
+	if !s.withinPeerLimits(chunks) {
+		return 0, ua.StatusBadResponseTooLarge
+	}
 
 	var bytesSent int
 	for i, chunk := range chunks {
@@ -1220,6 +1228,29 @@ func (s *SecureChannel) writeMessageChunks(ctx context.Context, instance *channe
 	debug.Printf("uasc %d/%d: send %T with %d bytes in %d chunks", s.c.ID(), reqID, body, bytesSent, len(chunks))
 
 	return bytesSent, nil
+}
+
+// withinPeerLimits returns true if the message which consists of the encoded
+// chunks does not exceed the chunk count and the message size the peer has
+// announced in the handshake.
+func (s *SecureChannel) withinPeerLimits(chunks [][]byte) bool {
+	if max := s.c.PeerMaxChunkCount(); max > 0 && uint32(len(chunks)) > max {
+		return false
+	}
+	if max := s.c.PeerMaxMessageSize(); max > 0 {
+		// message header, security token id and sequence header
+		const hdrlen = 12 + 4 + 8
+		var size int
+		for _, chunk := range chunks {
+			if len(chunk) > hdrlen {
+				size += len(chunk) - hdrlen
+			}
+		}
+		if uint32(size) > max {
+			return false
+		}
+	}
+	return true
 }
 
 func (s *SecureChannel) SendResponseWithContext(ctx context.Context, reqID uint32, resp ua.Response) error {
